@@ -189,6 +189,10 @@ _ATTRS = {"noundef", "nonnull", "noalias", "nocapture", "readonly", "readnone", 
 
 def _strip_attrs(operand):
     """'double* nocapture noundef readonly %x' -> ('double*', '%x')"""
+    mm = re.search(r"\b(bitcast|getelementptr inbounds|getelementptr) \(", operand)
+    if mm:
+        # constant-expression operand: keep the whole expression as the value token
+        return operand[:mm.start()].strip(), operand[mm.start():].strip()
     toks = operand.split()
     val = toks[-1]
     ty = []
